@@ -289,6 +289,93 @@ def make_runs(spec):
     return body
 
 
+def make_visual(spec):
+    """the visual front end (parproc_visual: progress, per-result display, summary, legacy string payloads) around the sequential loop: still exactly one
+    result per payload, carrying the outcome or the captured exception, for every subset of raising payloads and every combination of its display options"""
+    import os
+    import sys as _sys
+    import tempfile
+    import threading
+    from pathlib import Path
+    from tatsu.parproc import task as taskmod
+    from tatsu.parproc.parproc import parproc
+    from tatsu.parproc.payload import VisualPayload
+    from tatsu.parproc.visual import parproc_visual
+    N = spec['n']
+    parprocmod = _sys.modules[parproc.__module__]
+    scratch = tempfile.mkdtemp(prefix='vis', dir=os.getcwd())
+    for i in range(N):
+        for bad in (0, 1):
+            Path(scratch, f'f{i}_{bad}.py').write_text(('bad\n' if bad else f'line {i}\n# comment\n\n'))
+
+    class FakeMP:
+        class _Mgr:
+            def Event(self):
+                return threading.Event()
+
+        def Manager(self):
+            return FakeMP._Mgr()
+
+        def cpu_count(self):
+            return 2
+
+    class Prog:
+        def update(self, *a, **k):
+            pass
+
+        def stop(self):
+            pass
+
+    def vwork(p):
+        text = p.payload if getattr(p, 'payload', None) is not None else Path(p).read_text()      # (a legacy function takes a file name: Path(payload object) is a TypeError)
+        if text.startswith('bad'):
+            raise ValueError('bad payload')
+        return len(text)
+
+    def native(mask, summary, verbose, legacy):
+        files = [str(Path(scratch, f'f{i}_{(mask >> i) & 1}.py')) for i in range(N)]
+        payloads = files if legacy else [VisualPayload(Path(f), Path(f).read_text()) for f in files]
+        real_mp, real_mem = parprocmod.multiprocessing, taskmod.memory_use
+        try:
+            parprocmod.multiprocessing = FakeMP()
+            taskmod.memory_use = lambda: 0
+            try:
+                got = list(parproc_visual(vwork, payloads, Prog(), eprint=lambda *a, **k: None, parallel=False, summary=bool(summary), verbose=bool(verbose)))
+            except Exception as e:  # noqa: BLE001
+                return False, 'visual-loop-raised', type(e).__name__ + ': ' + str(e)[:80]
+        finally:
+            parprocmod.multiprocessing = real_mp
+            taskmod.memory_use = real_mem
+        key = sorted((str(getattr(r.payload, 'path', r.payload)), r.outcome, type(r.exception).__name__ if r.exception is not None else None) for r in got)
+        want = sorted((f, None if (mask >> i) & 1 else len(Path(f).read_text()), 'ValueError' if (mask >> i) & 1 else None) for i, f in enumerate(files))
+        if key != want:
+            return False, 'visual-results', [key, want]
+        return True, 'one-per-payload' if N else 'triv:empty', None
+
+    cache = {}
+
+    def pick(a, hi):
+        v = 0
+        for i in range(hi):
+            if a == i:
+                v = i
+        return v
+
+    def body(args):
+        if _tracing():
+            key = (pick(args[0], 2 ** N), pick(args[1], 2), pick(args[2], 2), pick(args[3], 2))
+            from crosshair.tracers import NoTracing
+            with NoTracing():
+                cache.clear()
+                cache[key] = r = native(*key)
+                return r
+        return cache.get(tuple(args)) or native(*args)
+
+    body.explain = lambda args: repr(native(*args))
+    body.warm = [(0, 1, 1, 0), ((2 ** N) - 1, 0, 0, 1)]
+    return body
+
+
 def native_checks():
     """the same relation through the real parproc() with real pools (sampled: real scheduling is outside the solver's reach)"""
     import subprocess
@@ -315,6 +402,9 @@ def plan(tier, seed):
         obs.append(Ob(name=f'pmap_n{n}', factory='vt.props.c18:make_pmap', spec={'n': n, 'steps': steps},
                       params=[('workers', 1, 4 if n < 4 else 3), ('mask', 0, 2 ** n)] + [(f'o{i}', 0, 3) for i in range(steps)],
                       budget=900 if n < 5 else 3600, group='pmap', require_tags=('refilled',) if n >= 3 else ()))
+    for n in ((0, 1, 3) if tier == 'quick' else (0, 1, 2, 3, 4)):
+        obs.append(Ob(name=f'visual_n{n}', factory='vt.props.c18:make_visual', spec={'n': n, 'program': 'visual'},
+                      params=[('mask', 0, 2 ** n), ('summary', 0, 2), ('verbose', 0, 2), ('legacy', 0, 2)], budget=300, group='visual', require_tags=('one-per-payload',) if n else ()))
     for n in (3,):
         obs.append(Ob(name=f'runs_n{n}', factory='vt.props.c18:make_runs', spec={'n': n, 'program': 'two-runs'},
                       params=[('stop_after', 0, n + 2), ('how', 0, 2), ('n2', 0, 4)], budget=300, group='runs', require_tags=('after-stopped-run',)))
@@ -330,7 +420,7 @@ def plan(tier, seed):
                        'was submitted exactly once. The solver enumerates the schedule variables; each path runs the real loop natively. One sampled run through real '
                        'process pools is a by-product. Two runs in one process: the first run is stopped by its consumer (result.stop.set()) or by a KeyboardInterrupt in a payload '
                        'function at a solver-chosen point, the second, independent run must still yield one correct result per payload.',
-        'functions_encoded': ['tatsu.parproc.pmap:active_pmap.executor_pmap', 'tatsu.parproc.parproc:parproc (sequential mode)', 'tatsu.parproc.task:taskproc/Task', 'tatsu.parproc.result:Result'],
+        'functions_encoded': ['tatsu.parproc.visual:parproc_visual/process_packets, tatsu.parproc.summary:show_summary/result_stats (sequential mode, display stubbed)', 'tatsu.parproc.pmap:active_pmap.executor_pmap', 'tatsu.parproc.parproc:parproc (sequential mode)', 'tatsu.parproc.task:taskproc/Task', 'tatsu.parproc.result:Result'],
         'bounds': f'payload lists of length 0..{4 if tier == "quick" else 5}, worker counts 1..3, every subset of raising payloads, every completion order of the pending futures',
         'outside': 'real process/thread pools, pickling and OS scheduling (one sampled native run only); what a STOPPED run itself yields; undeclared exceptions (they propagate by design)',
         'assumptions': ['stubs: executor class (subclass of ProcessPoolExecutor without processes), as_completed, memory_use, multiprocessing.Manager (stop event) in the sequential mode'],
